@@ -11,7 +11,7 @@ library is supplied here:
 
 Nothing in this file knows what the right answer of a comparison or a set operation is.
 """
-from engine.evalmini import Interp, Obj, OutOfFragment, NOT_HANDLED, UNKNOWN
+from engine.evalmini import Interp, Obj, OutOfFragment, NOT_HANDLED, UNKNOWN, SignedOverflow
 
 O = 'ccl::object::'
 SD = O + 'StructuredData'
@@ -400,21 +400,22 @@ class SDEval:
         if k == 'CallExpr' and cs in ('std::all_of', 'std::any_of', 'std::none_of', 'std::find_if', 'std::count_if') and len(n.get('args', [])) == 3:
             b, e, lam = args()
             if is_poly(b) and is_poly(e):
+                # as libstdc++ writes them: the scan tests `first != last`, the verdict is `last == found` (the orientation matters when
+                # the iterator's operator== is not symmetric)
                 b = self.copy_poly(b)
                 hits = 0
-                while not self.iter_eq(b, e):
-                    r = it.call_lambda(lam, [self.deref(b)])
-                    if cs == 'std::all_of' and not r:
-                        return False
-                    if cs == 'std::any_of' and r:
-                        return True
-                    if cs == 'std::none_of' and r:
-                        return False
-                    if cs == 'std::find_if' and r:
-                        return b
-                    hits += 1 if r else 0
+                want_true = cs in ('std::any_of', 'std::none_of', 'std::find_if', 'std::count_if')   # scan stops at the first element where pred is this
+                if cs == 'std::count_if':
+                    while not self.iter_eq(b, e):
+                        hits += 1 if it.call_lambda(lam, [self.deref(b)]) else 0
+                        self.advance(b)
+                    return hits
+                while not self.iter_eq(b, e) and bool(it.call_lambda(lam, [self.deref(b)])) != want_true:
                     self.advance(b)
-                return {'std::all_of': True, 'std::any_of': False, 'std::none_of': True, 'std::find_if': b, 'std::count_if': hits}[cs]
+                if cs == 'std::find_if':
+                    return b
+                at_end = self.iter_eq(e, b)
+                return at_end if cs in ('std::all_of', 'std::none_of') else not at_end
         # ---- calls inside generic lambdas: dispatch on the dynamic class of the receiver
         if cs.startswith('<dependent>::') and 'obj' in n:
             o = ev(n['obj'])
